@@ -220,6 +220,11 @@ class Interp:
                     if r is not _MISSING:
                         return
             raise Unsupported(f"expression statement {ast.unparse(st)[:60]}")
+        elif isinstance(st, ast.AugAssign):
+            fn = _BIN.get(type(st.op))
+            if fn is None:
+                raise Unsupported("augmented assignment op")
+            self.assign(st.target, fn(self.ev(st.target), self.ev(st.value)))
         elif isinstance(st, ast.Pass):
             return
         elif isinstance(st, ast.Assert):
@@ -234,6 +239,12 @@ class Interp:
         elif isinstance(tgt, ast.Attribute):
             base = self.ev(tgt.value)
             setattr(base, tgt.attr, val)
+        elif isinstance(tgt, ast.Subscript):
+            base = self.ev(tgt.value)
+            try:
+                base[self.ev(tgt.slice)] = val
+            except Exception as ex:
+                raise Unsupported(f"subscript store {ast.unparse(tgt)}") from ex
         else:
             raise Unsupported("assignment target")
 
